@@ -19,7 +19,9 @@ ASSUMPTIONS = ['the dot of qualifier.name is written without blanks (the propert
                'INSERT INTO targets carry no alias (not SQL)']
 
 HAZ = 'dollar_or_hash_in_name_after_dot'
-WS = [' ', ' ', ' ', '  ', '\t', '\n', ' \n ', '\r\n']
+# every character the lexer's whitespace rule (\s) accepts, not only blank/tab/line break: form feed, vertical tab, the
+# separator controls, NEL, no-break space, ideographic space
+WS = [' ', ' ', ' ', ' ', '  ', '\t', '\n', ' \n ', '\r\n', '\x0c', '\x0b', '\x1f', '\x85', '\xa0', '\u3000', ' \x0c', '\u2003\t']
 CONTEXTS = ['select', 'from', 'join', 'update', 'insert', 'subselect', 'subselect', 'cte', 'subfrom']
 
 _start = 'abcdfghijklmopqrstvwyzACDFGHIJKLMOPQRSTVWYZ_ÀÖÜéßàüЖ中'
